@@ -63,6 +63,10 @@ pub fn check_tables(ag: &AG, b: &Built, sg: &StateGraph<u32>, st: &StateTable<u3
     q.push_back(sg.start_state());
     while let Some(s) = q.pop_front() {
         for (_, t) in sg.edges(s) {
+            if usize::from(*t) >= nstates {
+                out.violate("edge-to-nonexistent-state", &[], format!("state {} has an edge to state {} but there are only {nstates} states", usize::from(s), usize::from(*t)), detail());
+                return;
+            }
             if !seen[usize::from(*t)] {
                 seen[usize::from(*t)] = true;
                 q.push_back(*t);
